@@ -190,6 +190,9 @@ func (s *Solver) Check(assumptions []*Term, wantModel bool) (SatResult, Model, s
 			return s.oneShot(assumptions, wantModel)
 		}
 	}
+	if s.Queries%2000 == 0 {
+		s.restart() // definitions and learnt clauses accumulate; start afresh now and then
+	}
 	s.buf.Reset()
 	var lits []string
 	for _, a := range assumptions {
@@ -449,4 +452,20 @@ func firstLine(s string) string {
 		return strings.TrimSpace(s[:i])
 	}
 	return s
+}
+
+func (s *Solver) restart() {
+	n, err := NewSolver(s.kind, s.timeout)
+	if err != nil {
+		return
+	}
+	old := *s
+	s.cmd, s.in, s.out, s.defined, s.logf, s.dead = n.cmd, n.in, n.out, n.defined, n.logf, false
+	go func() {
+		old.in.Close()
+		old.cmd.Wait()
+		if old.logf != nil {
+			old.logf.Close()
+		}
+	}()
 }
